@@ -232,6 +232,10 @@ func definitelyNonNil(o ssa.Value, eq map[ssa.Value]bool, region map[*ssa.BasicB
 		if nonNilCtors[calleeQual(x)] {
 			return true
 		}
+		// a module helper whose every return carries a definitely non-nil error (a wrap-and-log helper)
+		if cal := x.Common().StaticCallee(); cal != nil && InModule(cal) && alwaysNonNilError(cal, 0) {
+			return true
+		}
 	case *ssa.UnOp:
 		if x.Op == token.MUL {
 			if g, ok := x.X.(*ssa.Global); ok && isErrorType(g.Type().(*types.Pointer).Elem()) {
@@ -427,4 +431,52 @@ func phiReachesReturn(v ssa.Value, seen map[ssa.Value]bool) bool {
 		}
 	}
 	return false
+}
+
+var alwaysNonNilCache = map[*ssa.Function]int{}
+
+// alwaysNonNilError: every return of fn yields, as its last result, a value built by fmt.Errorf / errors.New, a
+// package-level sentinel, a concrete error value, or the result of another such helper.
+func alwaysNonNilError(fn *ssa.Function, depth int) bool {
+	if v, ok := alwaysNonNilCache[fn]; ok {
+		return v == 1
+	}
+	if depth > 3 || fn.Blocks == nil {
+		return false
+	}
+	res := fn.Signature.Results()
+	if res.Len() == 0 || !isErrorType(res.At(res.Len()-1).Type()) {
+		return false
+	}
+	alwaysNonNilCache[fn] = 2
+	ok := len(allReturns(fn)) > 0
+	for _, r := range allReturns(fn) {
+		o := retVal(r, len(r.Results)-1)
+		good := false
+		switch x := o.(type) {
+		case *ssa.Call:
+			if nonNilCtors[calleeQual(x)] {
+				good = true
+			} else if cal := x.Common().StaticCallee(); cal != nil && InModule(cal) && cal != fn && alwaysNonNilError(cal, depth+1) {
+				good = true
+			}
+		case *ssa.MakeInterface:
+			good = true
+		case *ssa.UnOp:
+			if x.Op == token.MUL {
+				if g, isG := x.X.(*ssa.Global); isG && isErrorType(g.Type().(*types.Pointer).Elem()) {
+					good = true
+				}
+			}
+		}
+		if !good {
+			ok = false
+		}
+	}
+	if ok {
+		alwaysNonNilCache[fn] = 1
+	} else {
+		alwaysNonNilCache[fn] = 2
+	}
+	return ok
 }
